@@ -60,7 +60,7 @@ def main():
         f.write("# Seeded changes and what catches them\n\n")
         f.write("Each directory holds `patch.diff` (the change), the demonstration (`*_test.go.txt`), the author's `notes.md` and `meta.json`\n")
         f.write("(property, what it needs to manifest, how it was confirmed, which checks were run against it and what they said).\n")
-        f.write("`-r2`/`-r3` = second/third round, written against the tree with the `fix:` commits. Round-1 changes were confirmed against the tree of their time;\n")
+        f.write("`-r2`/`-r3`/`-r4` = second/third/fourth round, written against the tree with the `fix:` commits. Round-1 changes were confirmed against the tree of their time;\n")
         f.write("some no longer apply or are neutralised by a later fix (noted).\n\n")
         f.write("| seed | property | change (short) | result of the quick checks | note |\n|---|---|---|---|---|\n")
         for r in rows:
